@@ -2,6 +2,7 @@
 from __future__ import annotations
 
 import ast
+import copy
 import re
 
 from .. import jmodel as J
@@ -46,6 +47,189 @@ INFORMATIONAL = {
 
 # ------------------------------------------------------------------ locals by role (no rule below depends on what a local is called)
 
+def _untuple(fn):
+    """`a, b = x, y` written as the assignments it abbreviates (`a = x; b = y`), in place, wherever that is the same program: no later
+    value of the display reads what an earlier target of it binds.  The rules below read one setting per statement."""
+    def split(st):
+        if not (isinstance(st, ast.Assign) and len(st.targets) == 1 and isinstance(st.targets[0], (ast.Tuple, ast.List)) and isinstance(st.value, (ast.Tuple, ast.List))):
+            return None
+        ts, vs = st.targets[0].elts, st.value.elts
+        if len(ts) != len(vs) or len(ts) < 2 or any(isinstance(e, ast.Starred) for e in list(ts) + list(vs)):
+            return None
+        for i, t in enumerate(ts):
+            if isinstance(t, ast.Name):
+                if any(isinstance(x, ast.Name) and x.id == t.id for v in vs[i + 1:] for x in ast.walk(v)):
+                    return None
+            elif isinstance(t, (ast.Attribute, ast.Subscript)):
+                txt = ast.unparse(t)
+                if any(txt in ast.unparse(v) for v in vs[i + 1:]):
+                    return None
+            else:
+                return None
+        return [ast.copy_location(ast.Assign(targets=[t], value=v), st) for t, v in zip(ts, vs)]
+
+    def rec(node):
+        for fld in ("body", "orelse", "finalbody"):
+            b = getattr(node, fld, None)
+            if isinstance(b, list) and b and isinstance(b[0], ast.stmt):
+                out = []
+                for st in b:
+                    if not isinstance(st, (ast.FunctionDef, ast.AsyncFunctionDef, ast.ClassDef)):
+                        rec(st)
+                    out += split(st) or [st]
+                setattr(node, fld, out)
+        for hd in getattr(node, "handlers", []) or []:
+            rec(hd)
+    rec(fn)
+    ast.fix_missing_locations(fn)
+    return fn
+
+
+def _fold_cond_assigns(fn):
+    """`if c: T = a` / `else: T = b` (one assignment to the same target on each side) written as `T = a if c else b`, in place"""
+    def fold(st):
+        if isinstance(st, ast.If) and len(st.body) == 1 and len(st.orelse) == 1:
+            a, b = st.body[0], fold(st.orelse[0])
+            a = fold(a)
+            if isinstance(a, ast.Assign) and isinstance(b, ast.Assign) and len(a.targets) == 1 and len(b.targets) == 1 \
+                    and isinstance(a.targets[0], (ast.Name, ast.Attribute)) and ast.dump(a.targets[0]) == ast.dump(b.targets[0]):
+                return ast.copy_location(ast.Assign(targets=[a.targets[0]], value=ast.copy_location(ast.IfExp(test=st.test, body=a.value, orelse=b.value), st)), st)
+        return st
+
+    def rec(node):
+        for fld in ("body", "orelse", "finalbody"):
+            b = getattr(node, fld, None)
+            if isinstance(b, list) and b and isinstance(b[0], ast.stmt):
+                out = []
+                for st in b:
+                    st = fold(st)
+                    if not isinstance(st, (ast.FunctionDef, ast.AsyncFunctionDef, ast.ClassDef)):
+                        rec(st)
+                    out.append(st)
+                setattr(node, fld, out)
+        for hd in getattr(node, "handlers", []) or []:
+            rec(hd)
+    rec(fn)
+    ast.fix_missing_locations(fn)
+    return fn
+
+
+def _inline_once_temps(fn):
+    """`v = E` directly followed by `T = v` / `return v`, v a local that occurs nowhere else in the function: `T = E` / `return E`,
+    in place (the value hoisted into a local just before its only use)"""
+    count = {}
+    for x in ast.walk(fn):
+        if isinstance(x, ast.Name):
+            count[x.id] = count.get(x.id, 0) + 1
+    params = {a.arg for a in ast.walk(fn.args) if isinstance(a, ast.arg)}
+
+    def rec(node):
+        for fld in ("body", "orelse", "finalbody"):
+            b = getattr(node, fld, None)
+            if isinstance(b, list) and b and isinstance(b[0], ast.stmt):
+                out = []
+                for st in b:
+                    if not isinstance(st, (ast.FunctionDef, ast.AsyncFunctionDef, ast.ClassDef)):
+                        rec(st)
+                    prev = out[-1] if out else None
+                    if isinstance(prev, ast.Assign) and len(prev.targets) == 1 and isinstance(prev.targets[0], ast.Name) and count.get(prev.targets[0].id) == 2 \
+                            and prev.targets[0].id not in params and isinstance(st, (ast.Assign, ast.Return)) and isinstance(st.value, ast.Name) and st.value.id == prev.targets[0].id:
+                        st.value = prev.value
+                        out[-1] = st
+                        continue
+                    # .. or into the local a loop runs over / a branch tests (evaluated once, first)
+                    if isinstance(prev, ast.Assign) and len(prev.targets) == 1 and isinstance(prev.targets[0], ast.Name) and count.get(prev.targets[0].id) == 2 \
+                            and prev.targets[0].id not in params:
+                        if isinstance(st, ast.For) and isinstance(st.iter, ast.Name) and st.iter.id == prev.targets[0].id:
+                            st.iter = prev.value
+                            out[-1] = st
+                            continue
+                        if isinstance(st, ast.If) and isinstance(st.test, ast.Name) and st.test.id == prev.targets[0].id:
+                            st.test = prev.value
+                            out[-1] = st
+                            continue
+                    out.append(st)
+                setattr(node, fld, out)
+        for hd in getattr(node, "handlers", []) or []:
+            rec(hd)
+    rec(fn)
+    return fn
+
+
+def _straighten_in_place(fn):
+    # (a value hoisted inside a branch goes back first, so that the branch is the one store the fold reads; the fold may leave
+    # `v = a if c else b; T = v` behind, which goes back in turn)
+    return _inline_once_temps(_fold_cond_assigns(_inline_once_temps(_join_dict_stores(_inline_once_temps(_untuple(fn))))))
+
+
+def straighten(fn):
+    """a copy of a function with tuple assignments split, `if c: T = a else: T = b` as a conditional expression, successive stores into
+    a fresh dict as the display, and a value hoisted into a once-used local back in place (the everyday re-spellings of ONE store)"""
+    return _straighten_in_place(copy.deepcopy(fn))
+
+
+def straighten_module(pkg, file):
+    """a copy of module `file` with every function of it straightened (see straighten), cached"""
+    cache = pkg.__dict__.setdefault("_c20_straight_mod", {})
+    if file not in cache:
+        mod = copy.deepcopy(pkg.modules[file])
+        for fn in [x for x in ast.walk(mod) if isinstance(x, (ast.FunctionDef, ast.AsyncFunctionDef))]:
+            _straighten_in_place(fn)
+        cache[file] = mod
+    return cache[file]
+
+
+def straightened(pkg, cls, meth, keep=()):
+    """a private copy of method `cls.meth` for the rules that read one stored setting per statement: helpers put back, tuple
+    assignments split, `if c: T = a else: T = b` as a conditional expression, a value hoisted into a once-used local back in place"""
+    cache = pkg.__dict__.setdefault("_c20_straight", {})
+    key = (cls, meth, tuple(sorted(keep)))
+    if key not in cache:
+        cache[key] = _straighten_in_place(copy.deepcopy(pkg.expanded(cls, meth, keep=keep)))
+    return cache[key]
+
+
+def _join_dict_stores(fn):
+    """`T = {}` directly followed by `T["k1"] = v1; T["k2"] = v2; ..` (constant keys, no value reads T) written as the display
+    `T = {"k1": v1, "k2": v2}` it builds, in place"""
+    def rec(node):
+        for fld in ("body", "orelse", "finalbody"):
+            b = getattr(node, fld, None)
+            if isinstance(b, list) and b and isinstance(b[0], ast.stmt):
+                out = []
+                cur = None           # (name, display being extended)
+                for st in b:
+                    if not isinstance(st, (ast.FunctionDef, ast.AsyncFunctionDef, ast.ClassDef)):
+                        rec(st)
+                    if cur is not None and isinstance(st, ast.Assign) and len(st.targets) == 1 and isinstance(st.targets[0], ast.Subscript) \
+                            and isinstance(st.targets[0].value, ast.Name) and st.targets[0].value.id == cur[0] and isinstance(st.targets[0].slice, ast.Constant) \
+                            and not any(isinstance(x, ast.Name) and x.id == cur[0] for x in ast.walk(st.value)) \
+                            and not any(isinstance(k, ast.Constant) and k.value == st.targets[0].slice.value for k in cur[1].keys):
+                        cur[1].keys.append(st.targets[0].slice)
+                        cur[1].values.append(st.value)
+                        continue
+                    cur = None
+                    if isinstance(st, ast.Assign) and len(st.targets) == 1 and isinstance(st.targets[0], ast.Name) and \
+                            ((isinstance(st.value, ast.Dict) and not st.value.keys) or (isinstance(st.value, ast.Call) and ast.unparse(st.value) == "dict()")):
+                        st.value = ast.copy_location(ast.Dict(keys=[], values=[]), st.value)
+                        cur = (st.targets[0].id, st.value)
+                    out.append(st)
+                setattr(node, fld, out)
+        for hd in getattr(node, "handlers", []) or []:
+            rec(hd)
+    rec(fn)
+    return fn
+
+
+def _plain(pkg, cls, meth):
+    """a private copy of method `cls.meth` as written, tuple assignments split (see _untuple)"""
+    import copy
+    cache = pkg.__dict__.setdefault("_c20_plain", {})
+    if (cls, meth) not in cache:
+        cache[(cls, meth)] = _join_dict_stores(_inline_once_temps(_untuple(copy.deepcopy(pkg.method(cls, meth)))))
+    return cache[(cls, meth)]
+
+
 def _toml_root(fn):
     """the local holding the parsed configuration: assigned from <x>.read() / tomlkit.loads(..) / tomlkit.parse(..)"""
     for n in [x for x in _in_order(fn) if isinstance(x, ast.Assign)]:
@@ -83,7 +267,8 @@ def _content_writer(pkg):
     if "fn" in cache:
         return cache["fn"]
     import copy
-    fn = pkg.expanded("BaseConfiguration", "content")
+    base = _untuple(copy.deepcopy(pkg.expanded("BaseConfiguration", "content")))
+    fn = base
     try:
         from ..normalize import unroll_static_loops, _Subst, _ConstFStr
         stores = {}
@@ -113,12 +298,12 @@ def _content_writer(pkg):
                         changed = True
             new_body.append(st)
         if changed:
-            fn = copy.deepcopy(pkg.expanded("BaseConfiguration", "content"))
+            fn = copy.deepcopy(base)
             fn.body = [copy.deepcopy(x) for x in new_body]
             ast.fix_missing_locations(fn)
             unroll_static_loops(fn)
     except (RecursionError, ImportError, AttributeError, TypeError):
-        fn = pkg.expanded("BaseConfiguration", "content")
+        fn = base
     cache["fn"] = fn
     return fn
 
@@ -131,7 +316,7 @@ def _render_handle(pkg):
     if "fn" not in cache:
         import copy
         from ..normalize import expand_kwargs_dicts, _ExprInliner
-        fn = copy.deepcopy(pkg.expanded("RenderCommand", "handle", keep=("option", "confirm", "call", "line", "argument")))
+        fn = _join_dict_stores(_inline_once_temps(_untuple(copy.deepcopy(pkg.expanded("RenderCommand", "handle", keep=("option", "confirm", "call", "line", "argument"))))))
 
         def helper(call):
             f = call.func
@@ -155,7 +340,7 @@ def _init_handle(pkg):
     if "fn" not in cache:
         import copy
         from ..normalize import expand_kwargs_dicts
-        fn = copy.deepcopy(pkg.expanded("InitCommand", "handle", keep=("option", "validate")))
+        fn = _join_dict_stores(_inline_once_temps(_untuple(copy.deepcopy(pkg.expanded("InitCommand", "handle", keep=("option", "validate"))))))
         try:
             expand_kwargs_dicts(fn)           # BaseConfiguration(name, **settings) with `settings` a display of the function
         except RecursionError:
@@ -168,7 +353,11 @@ def _example_handle(pkg):
     """ExampleCommand.handle with the helpers of the class / the module it may have been split into put back (one option value composed
     by a helper method, ..); the primitives of the command framework (self.option / choice / confirm / call / line) are not methods of
     the package and stay calls"""
-    return pkg.expanded("ExampleCommand", "handle", keep=("option", "choice", "confirm", "call", "line", "argument"))
+    cache = pkg.__dict__.setdefault("_example_handle", {})
+    if "fn" not in cache:
+        import copy
+        cache["fn"] = _inline_once_temps(_join_dict_stores(_inline_once_temps(_untuple(copy.deepcopy(pkg.expanded("ExampleCommand", "handle", keep=("option", "choice", "confirm", "call", "line", "argument")))))))
+    return cache["fn"]
 
 
 def _alias_closure(fn, name):
@@ -183,10 +372,26 @@ def _alias_closure(fn, name):
     return out
 
 
-def _origin_of(e, org):
-    """the one option an expression derives from: through locals of known origin and direct self.option("o") reads; else None"""
+class _Origins(dict):
+    """{local: option}; `.mixed` holds the locals computed from MORE than one option (or from such a local): no single option stands
+    behind them, and nothing computed from them has one"""
+    def __init__(self, *a):
+        super().__init__(*a)
+        self.mixed = set()
+
+
+def _origins_used(e, org):
     used = {org[x.id] for x in ast.walk(e) if isinstance(x, ast.Name) and x.id in org}
     used |= {x.args[0].value for x in ast.walk(e) if isinstance(x, ast.Call) and ast.unparse(x.func) == "self.option" and x.args and isinstance(x.args[0], ast.Constant)}
+    return used
+
+
+def _origin_of(e, org):
+    """the one option an expression derives from: through locals of known origin and direct self.option("o") reads; else None"""
+    mixed = getattr(org, "mixed", ())
+    if mixed and any(isinstance(x, ast.Name) and x.id in mixed for x in ast.walk(e)):
+        return None
+    used = _origins_used(e, org)
     return next(iter(used)) if len(used) == 1 else None
 
 
@@ -227,13 +432,18 @@ def _option_origins(h):
     another option changes its origin from there on."""
     if hasattr(h, "_sa_origins"):
         return h._sa_origins[0]
-    org, at = {}, {}
+    org, at = _Origins(), {}
     for n in _in_order(h):
         if isinstance(n, ast.Assign) and len(n.targets) == 1 and isinstance(n.targets[0], (ast.Name, ast.Tuple)):
             names = [n.targets[0]] if isinstance(n.targets[0], ast.Name) else [e for e in n.targets[0].elts if isinstance(e, ast.Name)]
             o = _origin_of(n.value, org)
             at[id(n)] = o
             direct = isinstance(n.value, ast.Call) and ast.unparse(n.value.func) == "self.option"
+            if o is None and (len(_origins_used(n.value, org)) > 1 or any(isinstance(x, ast.Name) and x.id in org.mixed for x in ast.walk(n.value))):
+                # a fresh local computed from several options stands for none of them (and is not neutral like a constant)
+                org.mixed.update(t.id for t in names if t.id not in org)
+            elif direct:
+                org.mixed.difference_update(t.id for t in names)
             if o is not None:
                 for t in names:
                     # a local that already stands for an option keeps it when it is refined (validated, split, defaulted from other
@@ -244,6 +454,8 @@ def _option_origins(h):
             o = _origin_of(n.iter, org)
             at[id(n)] = o
             if o is None:
+                if len(_origins_used(n.iter, org)) > 1 or any(isinstance(x, ast.Name) and x.id in org.mixed for x in ast.walk(n.iter)):
+                    org.mixed.update(x.id for x in ast.walk(n.target) if isinstance(x, ast.Name) and x.id not in org)
                 continue
             for x in ast.walk(n.target):
                 if isinstance(x, ast.Name):
@@ -382,15 +594,26 @@ def _get_key(e):
     return None
 
 
+def _unit_assigns(n):
+    """the plain `target = value` pairs one assignment statement stands for: every target of `a = b = v`, and the pairs of an
+    element-wise tuple assignment `a, b = x, y` (values are read before any target is bound: callers take paths first)"""
+    out = []
+    for t in n.targets:
+        if isinstance(t, (ast.Tuple, ast.List)) and isinstance(n.value, (ast.Tuple, ast.List)) and len(t.elts) == len(n.value.elts) \
+                and not any(isinstance(e, ast.Starred) for e in list(t.elts) + list(n.value.elts)):
+            out += [(te, ve) for te, ve in zip(t.elts, n.value.elts)]
+        else:
+            out.append((t, n.value))
+    return out
+
+
 def _alias_paths(fn, root_names, derive=False):
     """Follow `x = y["k"]` chains.  -> (reads {path: line}, writes {path: line}, var->path)
     derive=True: a fresh local computed from locals of exactly one configuration path (a converted / copied table under a new
     name) stands for that path too."""
     var = {n: p for n, p in root_names.items()}
     reads, writes = {}, {}
-    for node in ast.walk(fn):
-        pass
-    stmts = [n for n in _in_order(fn) if isinstance(n, (ast.Assign,))]       # execution order (expanded helpers keep their own line numbers)
+    stmts = [n for n in _in_order(fn) if isinstance(n, (ast.Assign, ast.AnnAssign))]       # execution order (expanded helpers keep their own line numbers)
 
     def path_of(e):
         if isinstance(e, ast.Name) and e.id in var:
@@ -406,28 +629,36 @@ def _alias_paths(fn, root_names, derive=False):
                 return f"{b}.{k}" if b else k
         return None
     for n in stmts:
-        t = n.targets[0]
-        # write: X["k"] = value
-        if isinstance(t, ast.Subscript):
-            p = path_of(t)
-            if p is not None:
-                writes[p] = n.lineno
-                if isinstance(n.value, ast.Dict):
-                    for k in n.value.keys:
-                        if isinstance(k, ast.Constant):
-                            writes[f"{p}.{k.value}"] = n.lineno
-        # read / alias: name = X["k"]
-        if isinstance(t, ast.Name):
-            p = path_of(n.value)
-            if p is not None:
-                var[t.id] = p
-                reads[p] = n.lineno
-            else:
+        if isinstance(n, ast.AnnAssign):
+            if n.value is None:
+                continue
+            units = [(n.target, n.value)]
+        else:
+            units = _unit_assigns(n)
+        # the right-hand sides are evaluated before any target is bound
+        units = [(t, v, path_of(v), path_of(t) if isinstance(t, ast.Subscript) else None) for t, v in units]
+        for t, value, p, tp in units:
+            # write: X["k"] = value
+            if isinstance(t, ast.Subscript):
+                if tp is not None:
+                    writes[tp] = n.lineno
+                    if isinstance(value, ast.Dict):
+                        for k in value.keys:
+                            if isinstance(k, ast.Constant):
+                                writes[f"{tp}.{k.value}"] = n.lineno
+            # read / alias: name = X["k"]
+            if isinstance(t, ast.Name):
+                if p is not None:
+                    var[t.id] = p
+                    if not isinstance(value, ast.Name):          # `x = y` names the table again; it asks the document for nothing
+                        reads[p] = n.lineno
+                    continue
                 if derive and t.id not in var:
-                    src = {var[x.id] for x in ast.walk(n.value) if isinstance(x, ast.Name) and x.id in var and var[x.id]}
+                    src = {var[x.id] for x in ast.walk(value) if isinstance(x, ast.Name) and x.id in var and var[x.id]}
                     if len(src) == 1:
                         var[t.id] = next(iter(src))
-                for sub in ast.walk(n.value):
+            if p is None:
+                for sub in ast.walk(value):
                     if isinstance(sub, ast.Subscript) or _get_key(sub) is not None:
                         q = path_of(sub)
                         if q is not None:
@@ -435,9 +666,14 @@ def _alias_paths(fn, root_names, derive=False):
     return reads, writes, var
 
 
+_WHOLE_OK_CALLS = ("dumps", "len", "print", "get", "write", "table", "isinstance")
+
+
 def _escaped_tables(fn, var):
-    """configuration tables (paths held by aliasing locals / subscripts of them) that are handed WHOLE to a call: whatever is read or
-    written below such a path happens out of this rule's sight"""
+    """configuration tables (paths held by aliasing locals / subscripts of them) that leave this rule's sight WHOLE: handed to a call,
+    returned, stored into a container / attribute, unpacked, indexed by a computed key, iterated.  Whatever is read or written below
+    such a path happens where `_alias_paths` does not look.  The uses it does read: `X["k"]`, `X.get("k")`, `name = X`,
+    the pairs of an element-wise tuple assignment, and the arguments of the few calls that take a document as a whole."""
     out = set()
 
     def path_of(e):
@@ -451,12 +687,36 @@ def _escaped_tables(fn, var):
     for c in ast.walk(fn):
         if isinstance(c, ast.Call):
             f = ast.unparse(c.func)
-            if f.split(".")[-1] in ("dumps", "len", "print", "get", "write", "table", "isinstance"):
+            if f.split(".")[-1] in _WHOLE_OK_CALLS:
                 continue
             for a in list(c.args) + [k.value for k in c.keywords]:
+                if isinstance(a, ast.Starred):
+                    a = a.value
                 p_ = path_of(a)
                 if p_ is not None:
                     out.add(p_)
+    # every other place a local that holds a table of the document stands in
+    read_here = set()              # id() of the Name nodes in a position this rule reads
+    for x in ast.walk(fn):
+        if isinstance(x, ast.Subscript) and isinstance(x.slice, ast.Constant) and isinstance(x.slice.value, str):
+            read_here.add(id(x.value))
+        elif isinstance(x, ast.Call):
+            if _get_key(x) is not None:
+                read_here.add(id(x.func.value))
+            for a in list(x.args) + [k.value for k in x.keywords]:
+                read_here.add(id(a.value if isinstance(a, ast.Starred) else a))            # decided above
+        elif isinstance(x, ast.Assign):
+            for t, v in _unit_assigns(x):
+                if isinstance(t, ast.Name) or (isinstance(t, ast.Subscript) and path_of(t) is not None):
+                    read_here.add(id(v))
+        elif isinstance(x, ast.AnnAssign) and x.value is not None and isinstance(x.target, ast.Name):
+            read_here.add(id(x.value))
+        elif isinstance(x, (ast.If, ast.While, ast.IfExp)):
+            read_here.add(id(x.test))                     # `if table:` asks whether it is empty, not what is in it
+    tables = {p for p in var.values() if any(q != p and (q.startswith(p + ".") or p == "") for q in var.values())}
+    for x in ast.walk(fn):
+        if isinstance(x, ast.Name) and isinstance(x.ctx, ast.Load) and x.id in var and id(x) not in read_here and var[x.id] in tables:
+            out.add(var[x.id])
     return out
 
 
@@ -693,19 +953,24 @@ def _r11(ctx, pkg):
     for local, opt in sorted(org.items()):
         if opt not in LIST_OPTIONS:
             continue
-        # the last assignment that turns the option text into a list
-        cands = [a for a in ast.walk(h) if isinstance(a, ast.Assign) and isinstance(a.targets[0], ast.Name) and a.targets[0].id == local
+        # the last assignment (in execution order: statements of a helper put back keep the helper's line numbers) that turns the
+        # option text into a list
+        order = [x for x in _in_order(h) if isinstance(x, ast.Assign)]
+        pos = {id(x): i for i, x in enumerate(order)}
+        top = {id(x) for x in h.body}
+        cands = [a for a in order if isinstance(a.targets[0], ast.Name) and a.targets[0].id == local
                  and not (isinstance(a.value, ast.Call) and ast.unparse(a.value.func) in ("self.option", "self.validate"))]
         if not cands:
             continue
-        a = sorted(cands, key=lambda x: x.lineno)[-1]
+        a = cands[-1]
         n += 1
         val = a.value
-        for _ in range(2):            # `items = [..]; option = items`: a local bound once is what it was bound to
-            if isinstance(val, ast.Name):
-                src = [x for x in ast.walk(h) if isinstance(x, ast.Assign) and len(x.targets) == 1 and isinstance(x.targets[0], ast.Name) and x.targets[0].id == val.id]
-                if len(src) == 1 and val.id != local:
-                    val = src[0].value
+        at = pos[id(a)]
+        for _ in range(3):            # `items = [..]; option = items`: a local is what the assignment that reaches this point bound it to
+            if isinstance(val, ast.Name) and val.id != local:
+                src = [x for x in order[:at] if len(x.targets) == 1 and isinstance(x.targets[0], ast.Name) and x.targets[0].id == val.id]
+                if src and (len(src) == 1 or (id(src[-1]) in top and id(a) in top)):
+                    val, at = src[-1].value, pos[id(src[-1])]
         st, why = _list_parse(val, ci.node)
         if st == "unknown":
             ctx.unrec("R11", f"--{opt}: list parse", (INIT, a.lineno), f"cannot tell whether every item survives: {why}")
@@ -836,7 +1101,7 @@ def _r13(ctx, pkg):
     """BaseConfiguration.__init__ is the input stage of the writer: every setting it is handed is stored WHOLE in the field content()
     writes (the argument itself, a copy, an empty default when nothing was given).  A field computed by filtering the argument
     (`[s for s in required_species if s not in self._allowedspecies]`) writes less than what was configured."""
-    init = pkg.cls("BaseConfiguration").methods["__init__"]
+    init = straightened(pkg, "BaseConfiguration", "__init__")
     params = {a.arg for a in init.args.args if a.arg != "self"}
     n = 0
     for st in init.body:
@@ -930,7 +1195,7 @@ def _r1(ctx, pkg):
     cfn = _content_writer(pkg)
     _, writes, wvar = _alias_paths(cfn, {_toml_root(cfn): ""})
     rfn = _render_handle(pkg)
-    efn = pkg.method("ExtendCommand", "handle")
+    efn = _untuple(copy.deepcopy(pkg.expanded("ExtendCommand", "handle", keep=("option", "confirm", "call", "line", "argument"))))
     ctx.saw(RENDER, "RenderCommand.handle"), ctx.saw(EXTEND, "ExtendCommand.handle")
     reads, rwrites, rvar = _alias_paths(rfn, {_toml_root(rfn): ""})
     ereads, _, _ = _alias_paths(efn, {_toml_root(efn): ""})
@@ -987,14 +1252,17 @@ def _kwargs_dict(fn, callee, kw):
         if keys_of(v) is not None:
             return keys_of(v)             # the display written in the call itself
     name = next((v.id for v in vals if isinstance(v, ast.Name)), None)
-    for n in ast.walk(fn):
-        if isinstance(n, ast.Assign) and isinstance(n.targets[0], ast.Name) and n.targets[0].id == name and keys_of(n.value) is not None:
-            return keys_of(n.value)
+    if name is None:
+        return set()
+    for nm in _alias_closure(fn, name):          # `kw = table` (the table built under another name, e.g. by a helper put back)
+        for n in ast.walk(fn):
+            if isinstance(n, ast.Assign) and isinstance(n.targets[0], ast.Name) and n.targets[0].id == nm and keys_of(n.value) is not None:
+                return keys_of(n.value)
     return set()
 
 
 def _r2(ctx, pkg):
-    init = pkg.cls("BaseConfiguration").methods["__init__"]
+    init = _plain(pkg, "BaseConfiguration", "__init__")
     params = [a.arg for a in init.args.args if a.arg != "self"]
     h = _init_handle(pkg)
     ctx.saw(INIT, "InitCommand.handle")
@@ -1370,12 +1638,13 @@ def _r4_r6_r7(ctx, pkg):
 
 
 def _r5(ctx, pkg):
-    ih = pkg.method("InitCommand", "handle")
+    ih = _plain(pkg, "InitCommand", "handle")
     table = None
     # by value (sa.consteval): a dict bound in handle() or at class level that maps solver names to {device: [methods]}
     from ..consteval import fold, NotConstant, class_attr_resolver
     attr = class_attr_resolver(pkg, "InitCommand")
     cands = [n.value for n in ast.walk(ih) if isinstance(n, ast.Assign) and isinstance(n.targets[0], ast.Name)] + list(pkg.cls("InitCommand").attrs.values())
+    cands += [n for n in ast.walk(ih) if isinstance(n, ast.Dict) and not any(n is c for c in cands)]          # the table used where it stands, without a name
     for v in cands:
         if not isinstance(v, (ast.Dict, ast.DictComp, ast.Call)):
             continue
@@ -1424,12 +1693,12 @@ def _r5_example(ctx, pkg, table, allm):
     whatever the case list is spelled as (a literal list, a comprehension over a class-level table, ...) and however solver / device /
     method are derived from the chosen case, every case must end in a method of init.py's table and yield a combination the table allows."""
     from ..consteval import fold, run, NotConstant, class_attr_resolver
-    eh = _example_handle(pkg)
+    eh = _fold_cond_assigns(copy.deepcopy(_example_handle(pkg)))          # the interpreter below reads assignments: `if c: x = a else: x = b` as `x = a if c else b`
     attr = class_attr_resolver(pkg, "ExampleCommand")
     # by role: the list handed to self.choice(<question>, <list>, ..) -- the same local that `--select` indexes
     lst = next((c.args[1] for c in ast.walk(eh) if isinstance(c, ast.Call) and isinstance(c.func, ast.Attribute) and c.func.attr == "choice" and len(c.args) >= 2), None)
-    casevar = next((n.targets[0].id for n in ast.walk(eh) if isinstance(n, ast.Assign) and isinstance(n.targets[0], ast.Name) and isinstance(n.value, ast.Call)
-                    and isinstance(n.value.func, ast.Attribute) and n.value.func.attr == "choice"), None)
+    casevar = next((n.targets[0].id for n in ast.walk(eh) if isinstance(n, ast.Assign) and isinstance(n.targets[0], ast.Name)
+                    and any(isinstance(c, ast.Call) and isinstance(c.func, ast.Attribute) and c.func.attr == "choice" for c in ast.walk(n.value))), None)
     cases = None
     if lst is not None:
         try:
